@@ -43,7 +43,9 @@ def showFact (f : Fact) : String := s!"{f.s}.{f.p}.{f.o}"
 def showFacts (l : List Fact) : String := "[" ++ joinWith ";" ((l.mergeSort Fact.le).map showFact) ++ "]"
 def showRepairs (l : List (List Fact)) : String := "{" ++ joinWith "|" (l.map showFacts) ++ "}"
 
+/-- the empty binding (an answer to a variable-free goal) is shown as `T`, so that "one answer" and "no answer" differ -/
 def showBinding (b : Binding) : String :=
+  if b.isEmpty then "T" else
   joinWith "," ((b.mergeSort fun x y => decide (x.1 ≤ y.1)).map fun (v, x) => s!"{v}={x}")
 def showBindings (l : List Binding) : String :=
   "[" ++ joinWith ";" ((l.map showBinding).mergeSort fun a b => decide (a ≤ b)) ++ "]"
